@@ -474,9 +474,12 @@ impl<'a> El<'a> {
         let cn = self.m.node_of(cond).t.clone();
         let elem = (i[4] as usize * cn.numel()) >> 8;
         let v = cn.vals[elem].v;
-        let mut thr = v + (i[5] as f64 - 128.0) / 32.0;
-        if (thr - v).abs() < 1e-3 {
-            thr = v - 0.5;
+        // the threshold lies at a distance from the value that is large against the value's rounding noise
+        // (its magnitude scale), so that a build with less precision takes the same branch
+        let scale = cn.vals[elem].vm.max(1.0);
+        let mut thr = v + (i[5] as f64 - 128.0) / 32.0 * scale;
+        if (thr - v).abs() < 1e-2 * scale {
+            thr = v - 0.5 * scale;
         }
         let td = self.dims(target);
         let shape_preserving = |me: &El, sel: u8, salt: u8| -> Option<ApplySpec> {
